@@ -52,6 +52,8 @@ type FuncContract struct {
 	line     int
 	isIface  bool
 	isExtern bool
+	frameOnly []string // callees of which only requires and modifies are used (their ensures are not assumed)
+	pureDyn  bool // calls through function-typed values (configuration callbacks) are assumed effect-free
 	fresh    bool // result is a freshly allocated object
 	depth    int  // inline depth override
 	maxPaths int
@@ -239,7 +241,7 @@ func parseSpecExpr(text string) (ast.Expr, error) {
 	return e, nil
 }
 
-var kwRe = regexp.MustCompile(`^(extern|macro|chan|gset|func|iface|spec|lemma|ghost|import|requires|ensures|modifies|inline|trusted|noverify|pure|fresh|loop|let|props|opaque|inlines|panics_when|depth|maxpaths|reveal|split|waitinv)\b`)
+var kwRe = regexp.MustCompile(`^(frameonly|puredyn|extern|macro|chan|gset|func|iface|spec|lemma|ghost|import|requires|ensures|modifies|inline|trusted|noverify|pure|fresh|loop|let|props|opaque|inlines|panics_when|depth|maxpaths|reveal|split|waitinv)\b`)
 
 // ParseContractFile extracts contracts from the //@ lines of a file.
 func ParseContractFile(pkgPath, file string, src []byte, pc *PkgContracts) error {
@@ -475,6 +477,12 @@ func ParseContractFile(pkgPath, file string, src []byte, pc *PkgContracts) error
 			case "pure":
 				cur.hasMod = true
 				cur.pure = true
+			case "frameonly":
+				for _, p := range strings.Fields(rest) {
+					cur.frameOnly = append(cur.frameOnly, strings.Trim(p, ","))
+				}
+			case "puredyn":
+				cur.pureDyn = true
 			case "inline":
 				cur.inline = true
 			case "trusted":
